@@ -46,7 +46,7 @@ M = [
     ('C05', 'uint16-decoded-signed', 'cflib/crazyflie/log.py', "0x02: ('uint16_t', '<H', 2),", "0x02: ('uint16_t', '<h', 2),"),
     ('C05', 'timestamp-byte-order', 'cflib/crazyflie/log.py', "timestamps[0] | timestamps[1] << 8 | timestamps[2] << 16)", "timestamps[2] | timestamps[1] << 8 | timestamps[0] << 16)"),
     ('C05', 'append-split-off-by-one', 'cflib/crazyflie/log.py', "if pk.available_data_size() >= size_to_add:", "if pk.available_data_size() > size_to_add:"),
-    ('C05', 'stop-does-not-clear-started', 'cflib/crazyflie/log.py', "                    if block:\n                        block.started = False\n            if (cmd == CMD_DELETE_BLOCK):", "                    if block:\n                        pass\n            if (cmd == CMD_DELETE_BLOCK):"),
+    ('C05', 'stop-does-not-clear-started', 'cflib/crazyflie/log.py', "                    if block:\n                        block.started = False\n\n            if (cmd == CMD_DELETE_BLOCK):", "                    if block:\n                        pass\n\n            if (cmd == CMD_DELETE_BLOCK):"),
     # C06
     ('C06', 'read-chunk-21', 'cflib/crazyflie/mem/__init__.py', "    MAX_DATA_LENGTH = 20\n", "    MAX_DATA_LENGTH = 26\n"),
     ('C06', 'write-chunk-too-big', 'cflib/crazyflie/mem/__init__.py', "    MAX_DATA_LENGTH = 25\n", "    MAX_DATA_LENGTH = 26\n"),
@@ -130,6 +130,16 @@ M = [
 ]
 
 
+# mutations that turned out to be equivalent (no observable behaviour changes): kept in the table with the reason
+EQUIVALENT = {
+    ('C05', 'append-split-off-by-one'): 'after the type byte the free space is 27-3k bytes, never exactly 2: >= and > agree',
+    ('C06', 'write-address-advance-constant'): 'the address only advances when more data follows, and then the chunk just written was a full one',
+    ('C09', 'bs-map-unsorted'): 'the id<->index map is used consistently in both directions, any bijection gives the same answer',
+    ('C18', 'target-mask'): 'differs only for target values 0 and 5..7, which are not CPXTarget members (both versions raise or map the same for 1..4)',
+    ('C19', 'is-open-before-opening'): 'close_links() in the failure path resets the flag, the order is not observable',
+}
+
+
 def sh(cmd, **kw):
     return subprocess.run(cmd, shell=True, stdout=subprocess.PIPE, stderr=subprocess.STDOUT, text=True, **kw)
 
@@ -154,6 +164,9 @@ def run_one(m):
         lines = [l for l in c.stdout.splitlines() if l.strip().startswith('violation')]
         r['signatures'] = sorted(set(l.strip().split(' ')[1].rstrip(':') for l in lines))[:6]
         r['status'] = 'DETECTED' if c.returncode == 1 else ('harness-error' if c.returncode == 2 else 'MISSED')
+        if r['status'] == 'MISSED' and (pid, name) in EQUIVALENT:
+            r['status'] = 'equivalent mutant'
+            r['signatures'] = [EQUIVALENT[(pid, name)]]
     finally:
         sh('git -C /repo worktree remove --force %s' % wt)
         shutil.rmtree(wt, ignore_errors=True)
@@ -182,7 +195,8 @@ def main():
             f.write('| %s | %s | %s | %s | %s | %s |\n' % (r['property'], r['name'], r['file'], r.get('tests', '-').replace('|', '/')[:40], r.get('status'),
                                                        ', '.join(r.get('signatures', []))[:160]))
         det = sum(1 for r in allr if r.get('status') == 'DETECTED')
-        f.write('\n%d of %d mutations detected by the quick tier.\n' % (det, len(allr)))
+        eq = sum(1 for r in allr if r.get('status') == 'equivalent mutant')
+        f.write('\n%d of %d mutations detected by the quick tier; %d are equivalent mutants (reason in the last column).\n' % (det, len(allr), eq))
     for r in res:
         print(r['property'], r['name'], r.get('status'), r.get('tests', '')[:30], r.get('signatures'))
 
